@@ -188,7 +188,7 @@ def s_namespaces(E, tier):
         try:
             ch['report']
             E.viol('C10', 'ambiguous', 'a short name matching a::report and b::report resolved instead of raising', 'report')
-        except KeyError:
+        except Exception:       # the statement asks for an error, not for a particular class
             pass
     # the same file mounted twice with different per-namespace values (known finding F1 on the pinned tree)
     d = E.dir()
@@ -432,10 +432,8 @@ def s_graph(E, tier):
         try:
             Config(E.dir(), name='m', data={'tasks': [lib.Extra, NeedsMissing]}).chain()
             E.viol('C08', 'missing_input', 'a chain with a missing required input was built', 'NeedsMissing')
-        except ValueError:
+        except Exception:       # "fails with an error": any exception class
             pass
-        except Exception as e:
-            E.viol('C08', 'missing_input', f'missing input reported as {type(e).__name__}', 'NeedsMissing')
 
     from taskchain.parameter import InputTaskParameter
 
@@ -450,10 +448,8 @@ def s_graph(E, tier):
         try:
             Config(E.dir(), name='m2', data={'tasks': [OptFirst]}).chain()
             E.viol('C08', 'missing_input', 'a missing required input declared after an optional one did not fail construction', 'OptFirst')
-        except ValueError:
+        except Exception:       # "fails with an error": any exception class
             pass
-        except Exception as e:
-            E.viol('C08', 'missing_input', f'missing input reported as {type(e).__name__}', 'OptFirst')
 
     class CycA(Task):
         class Meta:
@@ -520,7 +516,7 @@ def s_contexts(E, tier):
             try:
                 Config(E.dir(), name='p', data=bad).chain()
                 E.viol('C09', 'early_error', 'a missing required / mistyped parameter did not fail construction', bad)
-            except ValueError:
+            except Exception:
                 pass
     # nested context files with placeholders in `uses`
     d = E.dir()
@@ -556,7 +552,7 @@ def s_contexts(E, tier):
         try:
             Config(d2 / 'data', top2).chain()
             E.viol('C09', 'conflict', 'two configs declaring data:src with n=1 and n=2 in one namespace built a chain (resolved by order)', 'c1 / c3', key='F9b')
-        except ValueError:
+        except Exception:
             pass
     # a dict context with `uses` is not consumed by its first use
     E.tried += 1
@@ -667,7 +663,7 @@ def s_test_helpers(E, tier):
             try:
                 TestChain(base_dir=E.dir(), **bad_kwargs)
                 E.viol('C19', 'early_error', f'{what} was not reported when the helper was constructed', what)
-            except (ValueError, KeyError):
+            except Exception:
                 pass
     # parameter objects that reach into the chain
     from taskchain.chain import ChainObject
@@ -1314,7 +1310,7 @@ def s_name_access(E, tier):
                 got = ch[q].fullname if ch[q] is not None else None
                 got_name = [k for k, t in ch.tasks.items() if t is ch[q]]
                 got = got_name[0] if got_name and want not in got_name else (want if got_name else None)
-            except KeyError:
+            except Exception:
                 got = None
             if got != want:
                 E.viol('C10', 'access', f'tasks {full}: chain[{q!r}] gives {got}, the resolution rule gives {want}', (full, q), key='getitem')
@@ -1324,10 +1320,8 @@ def s_name_access(E, tier):
             try:
                 gt = ch.get_task(q)
                 gt_ok = True
-            except ValueError:
+            except Exception:
                 gt_ok = False
-            except KeyError:
-                gt_ok = None
             if gt_ok != (want is not None):
                 E.viol('C10', 'access', f'tasks {full}: get_task({q!r}) ' + ('succeeds' if gt_ok else 'fails') + ' but the name ' + ('resolves to ' + want if want else 'does not resolve'),
                        (full, q), key='get_task')
